@@ -318,6 +318,21 @@ def symptom_classes(off: dict) -> set[str]:
     return out
 
 
+def tmpdef_bodies(prop: str, cases, timeout=600):
+    """cases: (id, body).  {id: bool | None}: TmpDef.tmp_def of the effect the body denotes (every compiler temporary is written before it is
+    read on every path, known callees included); None = the body does not denote"""
+    if not cases:
+        return {}
+    rows = ";\n".join(b.coq() for _, b in cases)
+    txt = (HEADER.format(seeds="[]", fuel=10) + f"Definition bodies : list body := [\n{rows}\n].\n"
+           "Eval vm_compute in (map (fun b => match denote b with Some e => if tmp_def ilsub_table e then 1 else 0 | None => 2 end)%N bodies).\n")
+    ok, outs, err = common.run_case_files(prop + "_tmpdef", {"t": txt}, timeout=timeout)
+    if not ok:
+        raise RuntimeError("tmp_def case file failed: " + err[-1500:])
+    vals = re.findall(r"\d", common.coq_printed_values(outs["t"])[-1].replace("%N", ""))
+    return {cid: (None if v == "2" else v == "1") for (cid, _), v in zip(cases, vals)}
+
+
 def probe_light(prop: str, cases, shard=120, timeout=900):
     """wf_body / linear / denotes only (no model, no guard flags, no execution): {id: {...}}"""
     files = {}
